@@ -21,6 +21,8 @@ import (
 	gogotypes "github.com/gogo/protobuf/types"
 	promv1 "github.com/prometheus/client_model/go"
 	"google.golang.org/protobuf/encoding/protowire"
+	"google.golang.org/protobuf/proto"
+	"google.golang.org/protobuf/types/descriptorpb"
 	"google.golang.org/protobuf/types/known/durationpb"
 	"google.golang.org/protobuf/types/known/structpb"
 	"google.golang.org/protobuf/types/known/timestamppb"
@@ -103,6 +105,26 @@ var plainFlavours = []flavour{
 	{"gogo types.Timestamp (Size+Marshal)", func(t *rapid.T) any { return populate(t, &gogotypes.Timestamp{}) }, func() any { return &gogotypes.Timestamp{} }, digestEq},
 	{"gogo plain descriptor.EnumValueDescriptorProto", func(t *rapid.T) any { return populate(t, &gogodesc.EnumValueDescriptorProto{}) }, func() any { return &gogodesc.EnumValueDescriptorProto{} }, digestEq},
 	{"legacy golang/protobuf v1 (prometheus LabelPair)", func(t *rapid.T) any { return populate(t, &promv1.LabelPair{}) }, func() any { return &promv1.LabelPair{} }, digestEq},
+	// values whose marshal fails: proto2 messages of the plain runtimes with their required fields unset, and a value no runtime knows
+	{"google-v2 descriptorpb.UninterpretedOption_NamePart (required fields)", func(t *rapid.T) any {
+		m := &descriptorpb.UninterpretedOption_NamePart{}
+		if rapid.Bool().Draw(t, "complete") {
+			m.NamePart, m.IsExtension = proto.String("n"), proto.Bool(true)
+		} else if rapid.Bool().Draw(t, "half") {
+			m.NamePart = proto.String("n")
+		}
+		return m
+	}, func() any { return &descriptorpb.UninterpretedOption_NamePart{} }, digestEq},
+	{"gogo plain descriptor.UninterpretedOption_NamePart (required fields)", func(t *rapid.T) any {
+		m := &gogodesc.UninterpretedOption_NamePart{}
+		if rapid.Bool().Draw(t, "complete") {
+			m.NamePart, m.IsExtension = proto.String("n"), proto.Bool(true)
+		} else if rapid.Bool().Draw(t, "half") {
+			m.NamePart = proto.String("n")
+		}
+		return m
+	}, func() any { return &gogodesc.UninterpretedOption_NamePart{} }, digestEq},
+	{"a value no runtime knows (*struct{})", func(t *rapid.T) any { return &struct{}{} }, nil, digestEq},
 	{"legacy golang/protobuf v1 (prometheus Gauge)", func(t *rapid.T) any { return populate(t, &promv1.Gauge{}) }, func() any { return &promv1.Gauge{} }, digestEq},
 }
 
@@ -118,6 +140,8 @@ type field struct {
 	payload []byte // csproto.Marshal(msg) computed by the model before encoding
 	isStub  bool
 	fails   bool
+	// csproto.Marshal of the (non-stub) value returns an error: EncodeNested must return one too
+	expectErr error
 	desc    func() any
 }
 
@@ -174,6 +198,22 @@ func sizeAndMarshalToAgree(m any) (ok bool) {
 		return false
 	}
 	return true
+}
+
+// safeSize is csproto.Size of m, 0 if that panics.
+func safeSize(m any) (n int) {
+	defer func() {
+		if p := recover(); p != nil {
+			if rep.IsChoicePanic(p) {
+				panic(p)
+			}
+			n = 0
+		}
+	}()
+	if n = csproto.Size(m); n < 0 {
+		n = 0
+	}
+	return n
 }
 
 // ownMarshalToFails reports whether the message's own MarshalTo, given a buffer of its own Size(), fails or panics.
@@ -257,6 +297,7 @@ func runC19(t *rapid.T, w *rep.Worker) {
 	// model: expected bytes
 	var exp []byte
 	var cuts []int // model cursor after each field
+	spare := 0     // room for one trailing field that is expected to fail
 	usable := len(fields)
 	for i := range fields {
 		f := &fields[i]
@@ -275,12 +316,19 @@ func runC19(t *rapid.T, w *rep.Worker) {
 				p = st.payload
 			} else {
 				b, err, pan := safeMarshal(f.msg)
-				if err != nil || pan != nil {
-					// csproto.Marshal itself fails for these contents (C04/C17-class, pure input): not a nested-bridging matter
-					w.Probe("unjudged_marshal_failure_of_nested_value")
+				if pan != nil {
+					// csproto.Marshal itself panics for these contents (C04-class, pure input): not a nested-bridging matter
+					w.Probe("unjudged_marshal_panic_of_nested_value")
 					usable = i
+				} else if err != nil {
+					// csproto.Marshal returns an error for this value (unset required fields, a type no runtime knows):
+					// "an error from the nested message propagates to the caller". The field is encoded into spare room
+					// after the judged fields and must fail; nothing after it is judged.
+					f.expectErr = err
+					spare = 64 + safeSize(f.msg)
+					usable = i + 1
 				}
-				if usable == len(fields) && !sizeAndMarshalToAgree(f.msg) {
+				if f.expectErr == nil && usable == len(fields) && !sizeAndMarshalToAgree(f.msg) {
 					// the message's own MarshalTo writes more or fewer bytes than its own Size() announces, or fails
 					// where Marshal does not (C04/C17-class, pure input): EncodeNested has no exact answer for it
 					w.Probe("unjudged_nested_value_whose_size_and_marshalto_disagree")
@@ -289,10 +337,12 @@ func runC19(t *rapid.T, w *rep.Worker) {
 				p = b
 			}
 			f.payload = p
-			exp = protowire.AppendTag(exp, protowire.Number(f.tag), protowire.BytesType)
-			exp = protowire.AppendBytes(exp, p)
+			if f.expectErr == nil {
+				exp = protowire.AppendTag(exp, protowire.Number(f.tag), protowire.BytesType)
+				exp = protowire.AppendBytes(exp, p)
+			}
 		}
-		if usable < len(fields) {
+		if usable < len(fields) || f.expectErr != nil {
 			break
 		}
 		cuts = append(cuts, len(exp))
@@ -301,7 +351,7 @@ func runC19(t *rapid.T, w *rep.Worker) {
 	if injectAt >= usable {
 		injectAt = -1
 	}
-	buf := make([]byte, len(exp))
+	buf := make([]byte, len(exp)+spare)
 	for i := range buf {
 		buf[i] = fill
 	}
@@ -333,6 +383,13 @@ func runC19(t *rapid.T, w *rep.Worker) {
 		w.MixS(f.flav)
 		if pan != nil {
 			w.Violate(rep.PanicSig("EncodeNested|"+flavClass(f), pan, stack), fmt.Sprintf("%v while encoding field %d (%s) into an exactly sized buffer", pan, i, f.flav))
+			break
+		}
+		if f.expectErr != nil {
+			w.Fault("nested_value_whose_marshal_fails")
+			if err == nil {
+				w.Violate("nested-marshal-error-lost|"+flavClass(f), fmt.Sprintf("csproto.Marshal(%s) fails with %v, EncodeNested returned nil", f.flav, f.expectErr))
+			}
 			break
 		}
 		if f.fails {
